@@ -252,7 +252,7 @@ PROPS["C11"] = {
 }
 
 PROPS["C12"] = {
-    "claim": "HelpRequest::from_command on every argument token buffer of exactly 0..4 bytes (quick) / up to 8 (thorough) of well-formed UTF-8, for the name `help` and for another name: All iff `help` alone; Command(first value, rest) iff `help` + value; for other names Some iff an option before any `--` is --help or a cluster containing h. Routing: process_input on 14 token-list templates never enters the handler for a help request. Content: the text printed for 18 help requests on derived enums and a command group (expanded by /repo's macros at every run) equals, byte for byte, text written by hand from the documented format",
+    "claim": "HelpRequest::from_command on every argument token buffer of exactly 0..4 bytes (quick) / up to 8 (thorough) of well-formed UTF-8, for the name `help` and for another name: All iff `help` alone; Command(first value, rest) iff `help` + value; for other names Some iff an option before any `--` is --help or a cluster containing h. Routing: process_input on 14 token-list templates never enters the handler for a help request. Content: the text printed for 23 help requests on derived enums and a command group (expanded by /repo's macros at every run) equals, byte for byte, text written by hand from the documented format",
     "assumptions": ["`help` followed directly by an option or `--` is left open by the statement"],
     "harnesses": [
     ] + [H("c12_help::c12_request_predicate_n%d" % n, bounds="every well-formed token buffer of exactly %d bytes, name in {help, led}" % n, tier=("both" if n <= 4 else "thorough"), timeout=1800, mem=5) for n in range(0, 7)] + [
@@ -261,6 +261,7 @@ PROPS["C12"] = {
     ] + routing_set(["C12"]) + [
     ] + [H("c12_content::" + n, bounds="help text for %s compared byte by byte with the documented format" % n, timeout=900, mem=4) for n in [
         "help_all", "help_led", "led_dash_h", "led_long_help", "led_cluster_h", "help_go", "help_cp", "cp_dash_h_among_values", "help_sub", "help_sub_ping", "sub_ping_dash_h",
+        "help_dev", "dev_opts_dash_h", "dev_default_opt_ping_dash_h", "help_dev_all_opts_ping", "help_dev_opts_unknown",
         "help_unknown", "help_unknown_sub", "group_help_all", "group_help_second_member", "group_help_first_member", "group_help_hidden", "group_hidden_dash_h"]] + [
         H("c12_help::c12_request_twin", kind="twin"),
     ],
